@@ -347,12 +347,22 @@ func runCaseRecover(c *Ctx, idx int64) {
 	defer func() {
 		if r := recover(); r != nil {
 			st := string(debug.Stack())
+			if cp, ok := r.(carriedPanic); ok {
+				// a panic on a request goroutine, carried over with its own stack
+				r, st = cp.Value, cp.Stack
+			}
 			site := topRepoFrame(st)
 			c.Violate(Violation{Kind: "panic", Sig: "panic:" + site, Pool: "n/a",
 				Detail: fmt.Sprintf("panic: %v at %s", r, site), Witness: map[string]any{"stack": trimStack(st)}})
 		}
 	}()
 	c.Prop.RunCase(c, idx)
+}
+
+// carriedPanic re-raises on the case goroutine a panic that happened on a request goroutine.
+type carriedPanic struct {
+	Value any
+	Stack string
 }
 
 const caseWatchdog = 180 * time.Second
